@@ -52,6 +52,9 @@ static int h_stat(const char *p, struct stat *st) { if (h_poisoned(0, p)) return
 static int h_unlink(const char *p) { if (h_poisoned(1, p)) return -1; return unlink(p); }
 static int h_open_read(const char *p) { if (h_poisoned(2, p)) return -1; return open_read(p); }
 
+/* main()'s exit sequence is pqfinish(); pass_finish(); (since be3a18d) - weak, so that a tree without it still builds */
+void pass_finish() __attribute__((weak));
+
 #define time(x) h_time(x)
 #define stat(p,b) h_stat(p,b)
 #define unlink(p) h_unlink(p)
